@@ -118,6 +118,7 @@ def run_repr(ctx, case):
     rho = make_state(r, din, case['state'])
     out = apply_ref(K, rho)
     tol = 1e-10
+    K_before, rho_before = K.copy(), rho.copy()
     # explicit Choi in (in,out,in,out) and super-operator (out*out, in*in)
     choi_ref = np.einsum('sai,sbj->iajb', K, K.conj()).reshape(din * dout, din * dout)
     super_ref = np.einsum('sai,sbj->abij', K, K.conj()).reshape(dout * dout, din * din)
@@ -156,6 +157,8 @@ def run_repr(ctx, case):
         ctx.require(A.shape == (dout * dout - 1, din * din - 1) and b.shape == (dout * dout - 1,), 'Bloch map shapes')
         ctx.close(A @ bv_in + b, bv_out, tol, 'Bloch map reproduces the output Bloch vector')
         ctx.label('bloch')
+    ctx.close(K, K_before, 0, 'channel routines do not modify the Kraus operators they are given')
+    ctx.close(rho, rho_before, 0, 'channel routines do not modify the input state')
     # torch backend where offered
     Kt, rt = torch.tensor(K), torch.tensor(rho)
     ctx.close(ch.kraus_op_to_choi_op(Kt), choi_ref, tol, 'torch kraus_op_to_choi_op')
